@@ -280,6 +280,11 @@ def run(rep, db, tier, seed):
     except Exception as u:
         rep.add(Obligation('mux handshake / verify', 'inconclusive', f'{type(u).__name__}: {u}'[:600]))
     try:
+        from props import c14_queue
+        c14_queue.run(rep, db, tier)
+    except Exception as u:
+        rep.add(Obligation('stream hand-over (StreamQueue::push / ReservedStream::open)', 'inconclusive', f'{type(u).__name__}: {u}'[:600]))
+    try:
         from props import c14_reusable
         c14_reusable.run(rep, db, tier)
     except Exception as u:
